@@ -125,9 +125,18 @@ impl Module for M {
         "thick"
     }
     fn rule(&self) -> &'static str {
-        "all lines start -> start + (dx,dy), (dx,dy) in [-R,R]^2, x stroke widths 1..=W (R,W = 9,7 quick; 20,12 thorough) \
+        "C17: all lines start -> start + (dx,dy), (dx,dy) in [-R,R]^2, x stroke widths 1..=W (R,W = 9,7 quick; 20,12 thorough) \
          from 3 start points, width 0 on a small grid, then seeded random long lines with |dx|,|dy| <= 1000, w in 1..=12 \
-         (the non-overflowing range of thickness_threshold); non-trivial = width >= 2; distinct = distinct op text"
+         (the non-overflowing range of thickness_threshold); non-trivial = width >= 2; distinct = distinct op text. \
+         C02/C07/C19 (joins): ALL polylines with 2 and 3 vertices on a 5x5 lattice crossing the axes with irregular spacing \
+         (x in -4,-1,0,2,6; y in -5,-2,0,1,3; repeated vertices, reversals and colinear triples included; thorough 6x6) x widths \
+         2..=5 (C19: width 1; thorough 2,3,5,7), a seeded sample of 4/5-vertex ones (arbitrary, closed-looking, self-overlapping, \
+         repeated middle vertex), known skeleton-segment shapes continued by every lattice point in both directions, ALL triangles \
+         on a 4x4 lattice x widths 1..=4 x 3 alignments x rotating fill/stroke colour options (thorough 5x5 x widths 0,1,2,3,5), \
+         seeded random polylines / triangles within +-60; offsets rotate through 7 axis-crossing values (C07: non-zero ones). \
+         The counters polyline:join:*, triangle:join:*, polyline:skeleton-segments, triangle:collapsed-inside report the join kinds \
+         exercised (computed by a port of the private join code and compared with the Lean model's classification in the result line). \
+         Non-trivial: at least one pixel drawn (C07: and a non-zero offset)."
     }
 
     fn generate(&self, pid: &str, tier: Tier, rng: &mut Rng, emit: &mut dyn FnMut(String)) {
